@@ -132,6 +132,74 @@ def random_fields(rng, regime="any", overrides=None):
     return f
 
 
+# ---------------------------------------------------------------- full-range printed fields (added for C02)
+def _padnum(rng, value, width):
+    """Right-justified unsigned integer column: zero- or blank-padded."""
+    return ("%0*d" if rng.random() < 0.5 else "%*d") % (width, value)
+
+
+def _biased_int(rng, hi, specials):
+    r = rng.random()
+    if r < 0.35:
+        return rng.choice(specials)
+    if r < 0.5:
+        return rng.randrange(0, min(hi, 10) + 1)
+    return rng.randrange(0, hi + 1)
+
+
+def _frac(rng, n):
+    r = rng.random()
+    if r < 0.1:
+        return "0" * n
+    if r < 0.2:
+        return "9" * n
+    if r < 0.25:
+        return "0" * (n - 1) + "1"
+    if r < 0.3:
+        return "5" + "0" * (n - 1)
+    return _digits(rng, n)
+
+
+def full_range_fields(rng, statement_years=False):
+    """Printed TLE fields over the FULL printable range of every column (not restricted to physically
+    sensible orbits): 3-digit angles, 5-digit revolution numbers, every sign/exponent combination,
+    leading blanks or zeros, day 366, blank ephemeris type.  Same keys as random_fields().
+
+    statement_years: epoch years 00-56 and 69-99 only (the range the C02 statement fixes the century for).
+    """
+    f = {}
+    f["satnum"] = _padnum(rng, _biased_int(rng, 99999, [0, 1, 5, 25544, 99999, 10000]), 5)
+    f["classification"] = rng.choice("UUCS")
+    if rng.random() < 0.1:
+        f["launch_year"], f["launch_number"], f["launch_piece"] = "  ", "   ", "   "
+    else:
+        f["launch_year"] = "%02d" % rng.randrange(0, 100)
+        f["launch_number"] = "%03d" % rng.randrange(0, 1000)
+        f["launch_piece"] = rng.choice(["A  ", "B  ", "AB ", "ABC", "ZZ ", "AAA", "Q  "])
+    years = list(range(0, 57)) + list(range(69, 100))
+    if not statement_years:
+        years = years + list(range(57, 69))
+    yy = rng.choice(years + [0, 56, 69, 99, 20, 24, 0, 56, 69, 99])
+    f["epoch_year"] = "%02d" % yy
+    day = _biased_int(rng, 366, [1, 365, 366, 1, 59, 60, 61, 100, 99, 10, 9, 366])
+    day = max(day, 1)
+    f["epoch_day"] = _padnum(rng, day, 3) + "." + _frac(rng, 8)
+    f["ndot"] = rng.choice([" ", " ", "+", "-"]) + "." + rng.choice([_frac(rng, 8), "0000" + _digits(rng, 4), "00000000"])
+    for key in ("nddot", "bstar"):
+        mant = rng.choice([_digits(rng, 5), "00000", "10000", "99999", "0000" + rng.choice("0123456789")])
+        f[key] = rng.choice([" ", " ", "+", "-"]) + mant + rng.choice(["-", "-", "+"]) + rng.choice("0123456789")
+    f["ephemeris"] = rng.choice(["0", "0", " ", " ", "1", "2", "3", "4", "9"])
+    f["elnum"] = _padnum(rng, _biased_int(rng, 9999, [0, 1, 9, 10, 999, 1000, 9999]), 4)
+    for key in ("incl", "raan", "argp", "manom"):
+        hi = 180 if key == "incl" else 359
+        ip = _biased_int(rng, hi, [0, 1, 9, 10, 99, 100, 179, 180, 359]) if rng.random() < 0.85 else rng.randrange(0, 1000)
+        f[key] = _padnum(rng, ip, 3) + "." + _frac(rng, 4)
+    f["ecc"] = rng.choice([_digits(rng, 7), "0000000", "9999999", "000" + _digits(rng, 4), "0000001", "1000000"])
+    f["mmotion"] = _padnum(rng, _biased_int(rng, 99, [0, 1, 2, 9, 10, 14, 15, 16, 17, 99]), 2) + "." + _frac(rng, 8)
+    f["rev"] = _padnum(rng, _biased_int(rng, 99999, [0, 1, 9, 10, 9999, 10000, 99999]), 5)
+    return f
+
+
 def random_tle(rng, regime="any", overrides=None):
     f = random_fields(rng, regime, overrides)
     l1, l2 = encode(f)
